@@ -9,13 +9,13 @@
 #include <string.h>
 #include <stdlib.h>
 
-enum { H_PUSH = 1, H_POP, H_GET, H_CLEAR, H_SWAP, H_HUGE };
+enum { H_PUSH = 1, H_POP, H_GET, H_CLEAR, H_SWAP, H_HUGE, H_CHURN };
 
 static const char *h_opname(int k)
 {
     switch (k) {
     case H_PUSH: return "push"; case H_POP: return "pop"; case H_GET: return "get";
-    case H_CLEAR: return "clear"; case H_SWAP: return "swap"; case H_HUGE: return "huge";
+    case H_CLEAR: return "clear"; case H_SWAP: return "swap"; case H_HUGE: return "huge"; case H_CHURN: return "churn";
     }
     return "?";
 }
@@ -270,6 +270,22 @@ static void h_exec(const plan_t *p)
             continue;
         }
 
+        if (o->kind == H_CHURN) {
+            /* the n-th repetition: a transient element that beats every other is pushed and popped 254 ... 65 536 times */
+            static const unsigned reps[] = { 254, 255, 256, 65534, 65535, 65536 };
+            static struct helem tr; unsigned n = reps[o->a[2] % 6], q; void *got = NULL;
+            tr.magic = MAGIC; tr.tail = ~MAGIC; tr.id = -7; tr.prio = m->ord->dir > 0 ? 1 << 20 : -(1 << 20);
+            g_cur_ctx = n > 60000 ? "churn-2^16" : "churn-2^8";
+            g_inlib = 1;
+            for (q = 0; q < n; q++) { cstl_heap_push(&hp[h], HND(&tr)); got = cstl_heap_pop(&hp[h]); if (got != HND(&tr)) break; }
+            g_inlib = 0;
+            if (q != n) VIOL(h, "churn", "repetition %u of push/pop of a transient top element returned another element", q);
+            PROBE(n > 60000 ? "churn_2^16" : "churn_2^8");
+            EVT("churn", h, n, 0);
+            g_cur_ctx = ctx_of(h);
+            audit_heap(h);
+            continue;
+        }
         switch (o->kind) {
         case H_PUSH:
             if (m->n >= maxn) goto do_pop;
@@ -396,6 +412,7 @@ static void h_gen(prng_t *r, int mode, plan_t *p)
     for (i = 0; i < nops; i++) {
         unsigned x = (unsigned)prng_below(r, 100 + w_clear);
         int kind = x < push_w ? H_PUSH : x < 90 ? H_POP : x < 94 ? H_GET : x < 100 ? H_SWAP : H_CLEAR;
+        if (kind == H_GET && prng_chance(r, 1, 40)) kind = H_CHURN;
         op_t *o = plan_add(p, kind);
         o->a[0] = prng_below(r, 2);
         o->a[1] = prng_below(r, 4096);
